@@ -36,8 +36,10 @@ def main():
             alarms.append(name)
         lines.append("| %s | %s | %s | %s |" % (name, m.get("kind", ""), str(m.get("summary", "")).replace("|", "/").replace("\n", " ")[:160], fired or "silent"))
     lines += ["", "changes: %d; silent: %d; alarms: %s" % (len(res), len(res) - len(alarms), alarms or "none")]
-    if not only:
+    if not only and not os.environ.get("ONLY_PROP"):
         open(os.path.join(VERIF, "benign", "RESULTS.md"), "w").write("\n".join(lines) + "\n")
+    if os.environ.get("SUMMARY_JSON"):
+        json.dump({"changes": len(res), "silent": len(res) - len(alarms), "alarms": {n: res[n]["rules"] for n in alarms}}, open(os.environ["SUMMARY_JSON"], "w"), indent=1)
     print(lines[-1])
 
 
